@@ -285,7 +285,8 @@ def run(ctx):
               ("3sp,<=2rxn,coeff0-1", ("A", "B", "C"), (0, 1), 2)]
     if not ctx.quick:
         spaces += [("3sp,<=2rxn,coeff0-2", ("A", "B", "C"), (0, 1, 2), 2),
-                   ("3sp,<=3rxn,coeff0-1", ("A", "B", "C"), (0, 1), 3)]
+                   ("3sp,<=3rxn,coeff0-1", ("A", "B", "C"), (0, 1), 3),
+                   ("4sp,<=2rxn,coeff0-1", ("A", "B", "C", "D"), (0, 1), 2)]
     for tag, sp, coeffs, k in spaces:
         for net in W.enum_networks(sp, coeffs, k):
             idx += 1
